@@ -274,7 +274,8 @@ func goCmd(c *core.Ctx, dir string, timeout time.Duration, args ...string) (stri
 	defer cancel()
 	cmd := exec.CommandContext(ctx, c.GoBin, args...)
 	cmd.Dir = dir
-	cmd.Env = c.GoEnv()
+	// a private build cache: the shared one is trimmed and cleaned by other jobs on this machine while we build
+	cmd.Env = c.GoEnv("GOCACHE=" + filepath.Join(c.Work, "gocache"))
 	out, err := cmd.CombinedOutput()
 	return string(out), err
 }
